@@ -390,6 +390,14 @@ func c06Run(env *core.Env, idx int) *core.CaseResult {
 			}
 			row[i] = v
 		}
+		// a row has to fit into one 4 KB heap page: keep generated rows below that (over-wide rows have their own class below)
+		for c06RowWidth(row) > c06MaxRowWidth {
+			for i := range row {
+				if len(row[i].S) > 200 {
+					row[i] = rm.Str(row[i].S[:len(row[i].S)/2])
+				}
+			}
+		}
 		return row
 	}
 	insert := func(rows []rm.Row) bool {
@@ -595,8 +603,77 @@ func c06Run(env *core.Env, idx int) *core.CaseResult {
 			if dc > 0 {
 				continue
 			}
+			tooWide := false
+			for _, row := range mt.Rows {
+				if c06RowWidth(row) > c06MaxRowWidth {
+					tooWide = true
+				}
+			}
+			if tooWide {
+				continue
+			}
 			sql := "UPDATE " + s.t.Name + " SET " + strings.Join(sets, ", ") + " WHERE " + p.SQL("") + ";"
 			s.runDML(sql, p, mt, n)
+		}
+	}
+	// rows wider than a heap page cannot be stored: the statement has to be REJECTED (error or abort) and must leave the
+	// table unchanged - not hang, not panic, not store something else. Only for tables whose VARCHAR column is not indexed
+	// (an over-long indexed string is the listed skip-list finding) and that carry a non-indexed VARCHAR column.
+	if idx%3 == 0 && !s.dead {
+		for j, c := range cols {
+			if c.K != rm.KStr || s.idx[j] != "" {
+				continue
+			}
+			wide := mkRow(nextID)
+			nextID++
+			wide[j] = rm.Str(strings.Repeat("w", 4100+r.Intn(3000)))
+			ok := true
+			for _, cell := range wide {
+				if cell.Null || !gen.LitAccepted(cell) {
+					ok = false
+				}
+			}
+			if !ok {
+				break
+			}
+			sql, _ := sqlx.InsertSQL(s.t.Name, cols, []rm.Row{wide})
+			var rr sqlx.Result
+			msg, panicked := guarded(func() { rr = s.db.Auto(sql) })
+			res.Add("over_wide_row_statements", 1)
+			s.dmlTags = []string{"row-wider-than-page", "insert", "via-" + s.via}
+			if panicked {
+				res.Violate("dml-panic", s.dmlTags, s.caseDesc(clipStr(sql, 200), nil), "INSERT of a row wider than a page panicked: %s", msg)
+				s.dead = true
+				break
+			}
+			if rr.Err == nil && !rr.Aborted {
+				res.Violate("over-wide-row-accepted", s.dmlTags, s.caseDesc(clipStr(sql, 200), nil), "INSERT of a %d-byte row was reported as successful", c06RowWidth(wide))
+			} else {
+				res.Add("over_wide_rows_rejected", 1)
+			}
+			s.fullCompare("rejected over-wide INSERT")
+			if len(s.t.Rows) > 0 && !s.dead && withID {
+				// growing UPDATE beyond the page width
+				target := s.t.Rows[r.Intn(len(s.t.Rows))]
+				if !target[0].Null {
+					usql := fmt.Sprintf("UPDATE %s SET %s = '%s' WHERE id = %d;", s.t.Name, c.Name, strings.Repeat("u", 4100+r.Intn(2000)), target[0].I)
+					msg, panicked := guarded(func() { rr = s.db.Auto(usql) })
+					res.Add("over_wide_row_statements", 1)
+					s.dmlTags = []string{"row-wider-than-page", "update", "via-" + s.via}
+					if panicked {
+						res.Violate("dml-panic", s.dmlTags, s.caseDesc(clipStr(usql, 200), nil), "UPDATE to a row wider than a page panicked: %s", msg)
+						s.dead = true
+						break
+					}
+					if rr.Err == nil && !rr.Aborted {
+						res.Violate("over-wide-row-accepted", s.dmlTags, s.caseDesc(clipStr(usql, 200), nil), "UPDATE to an over-wide row was reported as successful")
+					} else {
+						res.Add("over_wide_rows_rejected", 1)
+					}
+					s.fullCompare("rejected over-wide UPDATE")
+				}
+			}
+			break
 		}
 	}
 	// stale statistics: table changed since the last statistics pass
@@ -640,6 +717,17 @@ func (s *c06State) runDML(sql string, p *rm.Pred, after *rm.Table, affected int)
 	s.t.Rows = after.Rows
 	s.fullCompare(sql)
 }
+
+// c06RowWidth is a conservative estimate of the stored size of a row (value bytes + per-value framing).
+func c06RowWidth(row rm.Row) int {
+	n := 0
+	for _, c := range row {
+		n += 8 + len(c.S)
+	}
+	return n
+}
+
+const c06MaxRowWidth = 3900
 
 func dmlKind(panicked bool, r sqlx.Result) string {
 	switch {
